@@ -14,6 +14,15 @@ compare cases: real `compare_models` on real `Sample` objects vs the model with 
                straddles the cut; result = the property's formula and sums to one.  Non-finite discrepancies
                (inf / nan in a Sample that is not the last one) are simply the largest values (numpy sort
                order -inf < finite < inf < nan); for Coq they are embedded order-isomorphically into Q.
+storage / listing (wave 2): the model is a function of the NUMERIC values.  Every adjust case may carry further runs
+               of the real code on the same numbers with the summaries LISTED in another order and the arrays of the
+               Sample / the observed summaries STORED otherwise (float64, float32, int64, int32, bool - only dtypes that
+               hold the values exactly; C-contiguous, strided, reversed, column-of-2-d, read-only).  Coq: each run agrees
+               with the model's single result (`agree`), satisfies the property in its own listing on the numeric
+               regressors (`ok` via `run_case`), and its tags are validated (`run_wf`: permutation, storable).
+               compare cases may store discrepancies / n_sim / prior weights in integer or float32 dtypes and other
+               containers; a dedicated stream has an exact-zero prior weight at every position.  Python side:
+               `inputs_unmutated` (the arrays handed in are bit-identical afterwards).
 """
 import math
 import numpy as np
@@ -82,6 +91,54 @@ def cross_rows(summ, params):
     return res
 
 
+NPDT = {'f8': np.float64, 'f4': np.float32, 'i8': np.int64, 'i4': np.int32, 'b1': np.bool_}
+COQDT = {'f8': 'F64', 'f4': 'F32', 'i8': 'I64', 'i4': 'I32', 'b1': 'B8'}
+LAYOUTS = ['c', 'c', 'strided', 'rev', 'col', 'ro']
+
+
+def f32(x):
+    """nearest binary32 as a python float (so that the case value IS what a float32 array holds)"""
+    return float(np.float32(x))
+
+
+def store(vals, dt='f8', lay='c'):
+    """the numeric values `vals` (python floats) as a 1-d numpy array of dtype `dt` in memory layout `lay`.
+    Only exact storage is allowed (the stored array converted back to float64 is `vals`), so whatever differs
+    between two runs of one case is never the harness's own conversion.
+    layouts: c = fresh C-contiguous; strided = every 2nd element of a longer buffer; rev = negative stride;
+    col = column of a 2-d C-ordered array; ro = contiguous, WRITEABLE flag cleared."""
+    base = np.array([dec(x) for x in vals], dtype=np.float64)
+    with np.errstate(all='ignore'):
+        arr = base.astype(NPDT[dt])
+    if not np.array_equal(arr.astype(np.float64), base, equal_nan=True):
+        raise AssertionError('harness: values %r are not exactly storable as %s' % (vals, dt))
+    n = len(arr)
+    junk = np.array([1], dtype=np.float64).astype(NPDT[dt])[0]
+    if lay == 'strided':
+        buf = np.full(2 * n + 1, junk, dtype=NPDT[dt])
+        buf[1::2] = arr
+        v = buf[1::2]
+    elif lay == 'rev':
+        buf = arr[::-1].copy()
+        v = buf[::-1]
+    elif lay == 'col':
+        buf = np.full((n, 3), junk, dtype=NPDT[dt])
+        buf[:, 1] = arr
+        v = buf[:, 1]
+    elif lay == 'ro':
+        v = arr.copy()
+        v.setflags(write=False)
+    else:
+        v = arr.copy()
+    assert v.shape == (n,) and v.dtype == NPDT[dt]
+    return v
+
+
+def x_dtype(sdt, odt):
+    """dtype of `np.stack(summaries) - np.stack(observed)` for the given storage dtypes"""
+    return np.result_type(*([NPDT[d] for d in sdt] + [NPDT[d] for d in odt]))
+
+
 class C17(PropCheck):
     pid = 'C17'
     header = ('From Coq Require Import List ZArith QArith Bool.\nFrom Elfi Require Import Base.Harness Num.Adjust.\n'
@@ -97,14 +154,26 @@ class C17(PropCheck):
             'compare: 1-4 models, 0-6 samples each, integer discrepancies (ties), differing n_sim, prior weights or None; a dedicated '
             'stream (every run) puts inf/nan (rarely -inf) discrepancies into a Sample that is not the last one while a later model owns '
             'the smallest discrepancy; non-trivial = >=2 models with a tie straddling the cut, differing n_sim/weights or non-finite '
-            'discrepancies in a non-last sample. Distinct by full input.')
+            'discrepancies in a non-last sample. Distinct by full input. '
+            'Storage/listing: about 30% of the adjust cases carry one further run of the same numeric sample with the summaries listed in a random '
+            'order and float64 arrays that are strided / reversed / a column of a 2-d array / read-only; a dedicated stream (every run) has columns '
+            'that are natively counts (integers), flags (0/1), binary32 or binary64 reals, integer-valued parameters, integer or non-integer observed '
+            'values for count columns, and 2-3 further runs each: run 0 lists a non-float64 column first in its native dtype, run 1 is never the canonical '
+            'listing, every array is stored in a dtype that holds its values exactly (float64/float32/int64/int32/bool, mixed within one run; 30% of the runs '
+            'all-native so that X itself is integer), observed summaries in float64/float32/int64/int32/bool through the Summary function. Excluded (unchanged code, see design note): '
+            'runs where every summary and observed array is float32/bool (X float32 or bool). '
+            'compare: 40% of the cases (and the whole zero-prior stream) store discrepancies as float64/float32/int64/int32 arrays in the five layouts, n_sim as '
+            'int/np.int64/np.int32, prior weights as list/tuple/int list/float64/float32/int64/int32 array; a dedicated stream (every run) has 2-4 models with an exact-zero prior weight at a '
+            'random position (first/middle/last all visited), further zeros with 12% each, weights in eighths or un-normalised integers.')
     trusted = ('scikit-learn LinearRegression is an oracle: only "its (intercept_, coef_) solve the normal equations within 1e-9" is checked per case',
                'numpy.linalg.lstsq (centred data) as the oracle slope for the model side; numpy.argsort order is validated inside Coq (permutation + ascending)',
                'binary64 arithmetic is modelled exactly over Q: summaries - observed and the dot product are compared with tolerances (1e-12 formula, 1e-9 normal equations, 1e-8 oracle slope); generator keeps |values| <= 4 so nothing overflows',
                'the list/Q model (Num/Adjust.v) and the matrix model (Num/AdjustMx.v) describe the same formula theta - X.b; their identification is by inspection',
                'non-finite discrepancies: the reference semantics is that of the code as written (numpy.argsort: -inf < finite < +inf < nan, nans tie), i.e. inf/nan are simply the largest values; '
                'for the Coq side (discrepancies are Q) the harness embeds them order-isomorphically (-inf -> min-1, +inf -> max+1, nan -> max+2), which is sound because compare_models reads the values only through argsort; '
-               'the python-side formula clause uses the extended order directly')
+               'the python-side formula clause uses the extended order directly',
+               'storage: harness.store() builds every array and asserts that converting it back to float64 gives the case values (Coq re-validates the tags: run_wf/storable); '
+               'that numpy hands those dtypes / strides to the code unchanged is trusted; runs whose regressor matrix would be float32 or bool (all arrays float32/bool) are not generated')
 
     # ------------------------------------------------------------------------------------------
     def _val(self, mode):
@@ -112,6 +181,148 @@ class C17(PropCheck):
         if mode == 'grid':
             return r.randint(-16, 16) / 4.0
         return r.uniform(-4, 4)
+
+    SOPTS = {'real': ['f8'], 'real32': ['f4', 'f4', 'f8'], 'count': ['i8', 'i8', 'i4', 'f8', 'f4'],
+             'flag': ['b1', 'b1', 'i8', 'i4', 'f8', 'f4']}
+
+    def _kval(self, kind, mode):
+        """a value of a column of the given kind: real (any binary64), real32 (a binary32), count (an integer),
+        flag (0 or 1)"""
+        r = self.rng
+        if kind == 'count':
+            return float(r.randint(-3, 9))
+        if kind == 'flag':
+            return float(r.randint(0, 1))
+        v = self._val(mode)
+        return f32(v) if kind == 'real32' else v
+
+    def _make_runs(self, skind, pkind, obs, nruns, native_first=True):
+        """further runs of one numeric sample: listing order of the summaries, storage dtype of every array (only
+        dtypes that hold the column's values exactly) and memory layout.  Run 0 lists a column that is natively not
+        float64 (a count / flag / float32 column) FIRST and stores it in its native dtype; run 1 is never the
+        canonical listing when there are >= 2 summaries."""
+        r = self.rng
+        k, runs = len(skind), []
+        for t in range(nruns):
+            perm = list(range(k))
+            r.shuffle(perm)
+            native = [j for j in range(k) if skind[j] != 'real']
+            if t == 0 and native_first and native:
+                first = r.choice(native)
+                perm.remove(first)
+                perm.insert(0, first)
+            elif t == 1 and k >= 2 and perm == list(range(k)):
+                perm = perm[1:] + perm[:1]
+            native_all = native_first and r.random() < 0.3     # every array in its native dtype (all-integer X possible)
+            sdt = []
+            for pos, j in enumerate(perm):
+                opts = self.SOPTS[skind[j]]
+                if (t == 0 and pos == 0 and native_first) or native_all:
+                    opts = [o for o in opts if o != 'f8'] or opts
+                if native_all and skind[j] in ('count', 'flag'):
+                    opts = [o for o in opts if o != 'f4']
+                sdt.append(r.choice(opts))
+            odt = []
+            for j in perm:
+                o = dec(obs[j])
+                opts = ['f8', 'f8', 'f4'] if f32(o) == o else ['f8']
+                if float(o).is_integer():
+                    opts = ['i8', 'i8', 'i4'] if (native_all and skind[j] in ('count', 'flag')) else opts + ['i8', 'i8', 'i4']
+                if o in (0.0, 1.0):
+                    opts = opts + ['b1']
+                odt.append(r.choice(opts))
+            pdt = [r.choice(self.SOPTS[kd]) for kd in pkind]
+            # LinearAdjustment computes X = stack(summaries) - stack(observed) in the common dtype of all those arrays.
+            # Outside this check (see design note, Wave 2): a float32 X (all arrays float32/bool: the regression itself
+            # then runs in binary32, errors ~1e-7) and a bool X (all arrays bool: numpy refuses bool - bool).
+            guard = 0
+            while x_dtype(sdt, odt) not in (np.float64, np.int64, np.int32):
+                guard += 1
+                if k >= 2 and r.random() < 0.5 and guard < 20:
+                    pos = r.randrange(1, k)
+                    sdt[pos] = 'f8'
+                else:
+                    odt[r.randrange(k)] = 'f8'
+            runs.append(dict(perm=perm, sdt=sdt, odt=odt, pdt=pdt, slay=[r.choice(LAYOUTS) for _ in range(k)],
+                             play=[r.choice(LAYOUTS) for _ in pkind]))
+        for run in runs:
+            self.bump('adj:run_listing=' + ('canonical' if run['perm'] == sorted(run['perm']) else 'permuted'))
+            self.bump('adj:run_first_summary_dtype=' + run['sdt'][0])
+            self.bump('adj:run_X_dtype=%s' % x_dtype(run['sdt'], run['odt']))
+            for d in set(run['sdt']):
+                self.bump('adj:run_summary_dtype=' + d)
+            for d in set(run['odt']):
+                self.bump('adj:run_observed_dtype=' + d)
+            for d in set(run['pdt']):
+                self.bump('adj:run_param_dtype=' + d)
+            for l in set(run['slay'] + run['play']):
+                self.bump('adj:run_layout=' + l)
+            if len(set(run['sdt'])) > 1:
+                self.bump('adj:run_mixed_summary_dtypes')
+        return runs
+
+    def gen_adjust_store(self):
+        """samples whose columns are natively counts (integers), flags (0/1), binary32 or binary64 reals, run in the
+        reference storage (float64) and in 2-3 further listings / storages / layouts of the same numbers."""
+        r = self.rng
+        k = r.choice([1, 2, 2, 2, 3, 3])
+        p = r.randint(1, 3)
+        n = r.randint(k + 3, 14)
+        mode = r.choice(['grid', 'float', 'float'])
+        skind = [r.choice(['real', 'count', 'count', 'flag', 'real32']) for _ in range(k)]
+        if all(x == 'real' for x in skind):
+            skind[r.randrange(k)] = r.choice(['count', 'count', 'flag', 'real32'])
+        pkind = [r.choice(['real', 'real', 'count', 'real32']) for _ in range(p)]
+        obs = []
+        for kd in skind:
+            if kd == 'count':      # usually an integer observed count, sometimes not (e.g. an averaged count)
+                obs.append(float(r.randint(-2, 8)) if r.random() < 0.75 else r.randint(-8, 32) / 4.0)
+            elif kd == 'flag':
+                obs.append(float(r.randint(0, 1)) if r.random() < 0.75 else r.choice([0.25, 0.5, -1.0, 2.0]))
+            else:
+                obs.append(self._val('grid'))
+        summ = [[self._kval(skind[j], mode) for j in range(k)] for _ in range(n)]
+        params = [[self._kval(pkind[q], mode) for _ in range(n)] for q in range(p)]
+        pn = r.choice([0.0, 0.0, 0.05, 0.12])
+        nf = 0
+        for i in range(n):          # non-finite values only where the column is a float column in every run
+            for j in range(k):
+                if skind[j] in ('real', 'real32') and r.random() < pn:
+                    summ[i][j] = r.choice(['nan', 'inf', '-inf'])
+                    nf += 1
+        for q in range(p):
+            for i in range(n):
+                if pkind[q] in ('real', 'real32') and r.random() < pn:
+                    params[q][i] = r.choice(['nan', 'inf', '-inf'])
+                    nf += 1
+        eq = 0
+        compat = all((kd != 'count' or float(o).is_integer()) and (kd != 'flag' or o in (0.0, 1.0)) for kd, o in zip(skind, obs))
+        if compat and r.random() < 0.4:
+            for _ in range(r.randint(1, 2)):
+                summ[r.randrange(n)] = list(obs)
+                eq += 1
+        runs = self._make_runs(skind, pkind, obs, r.choice([2, 2, 3]))
+        self.bump('adj:store_stream')
+        self.bump('adj:k=%d' % k)
+        self.bump('adj:p=%d' % p)
+        self.bump('adj:n=%s' % ('2-4' if n <= 4 else '5-9' if n <= 9 else '10-14'))
+        self.bump('adj:nonfinite=%s' % ('0' if nf == 0 else '1-3' if nf <= 3 else '4+'))
+        self.bump('adj:mode=' + mode)
+        for kd in set(skind):
+            self.bump('adj:summary_kind=' + kd)
+        for kd in set(pkind):
+            self.bump('adj:param_kind=' + kd)
+        if any(kd in ('count', 'flag') and not float(o).is_integer() for kd, o in zip(skind, obs)):
+            self.bump('adj:integer_summary_noninteger_observed')
+        if eq:
+            self.bump('adj:row_equals_observed')
+        A = None
+        while A is None:
+            M = [[r.randint(-4, 4) / 2.0 for _ in range(k)] for _ in range(k)]
+            if abs(np.linalg.det(np.array(M))) >= 0.5:
+                A = M
+        c = [r.randint(-8, 8) / 2.0 for _ in range(k)]
+        return dict(kind='adj', summ=summ, obs=obs, params=params, use_names=r.random() < 0.7, A=A, c=c, runs=runs)
 
     def gen_adjust(self, malformed=False, cross=False):
         r = self.rng
@@ -189,11 +400,48 @@ class C17(PropCheck):
             if abs(np.linalg.det(np.array(M))) >= 0.5:
                 A = M
         c = [r.randint(-8, 8) / 2.0 for _ in range(k)]
-        return dict(kind='adj', summ=summ, obs=obs, params=params, use_names=r.random() < 0.7, A=A, c=c)
+        case = dict(kind='adj', summ=summ, obs=obs, params=params, use_names=r.random() < 0.7, A=A, c=c)
+        if r.random() < 0.3:
+            # the same sample listed in another order / held in non-contiguous or read-only float64 arrays
+            case['runs'] = self._make_runs(['real'] * k, ['real'] * p, obs, 1, native_first=False)
+        return case
 
-    def gen_compare(self, malformed=False, nonfinite=False):
+    def _cmp_store(self, samples, pri):
+        """storage of the inputs of compare_models: dtype / layout of every discrepancy array (integer dtypes only for
+        integer-valued finite discrepancies, float32 only for binary32 values), type of n_sim, container / dtype of
+        model_priors (integer containers only for integer weights)."""
         r = self.rng
-        nm = r.randint(2, 4) if nonfinite else r.randint(1, 4)
+        ddt = []
+        for d, _ in samples:
+            vals = [dec(x) for x in d]
+            opts = ['f8', 'f8']
+            if all(math.isfinite(v) and float(v).is_integer() for v in vals):
+                opts += ['i8', 'i8', 'i4', 'i4']
+            if all((not math.isfinite(v)) or f32(v) == v for v in vals):
+                opts += ['f4']
+            ddt.append(r.choice(opts))
+        pst = None
+        if pri is not None:
+            opts = ['list', 'tuple', 'f8']
+            if all(f32(w) == w for w in pri):
+                opts += ['f4']
+            pst = r.choice(opts)
+            if all(float(w).is_integer() for w in pri) and r.random() < 0.7:
+                pst = r.choice(['ilist', 'i8', 'i4'])
+        st = dict(ddt=ddt, dlay=[r.choice(LAYOUTS) for _ in samples], nst=[r.choice(['int', 'int', 'i8', 'i4']) for _ in samples], pst=pst)
+        for d in set(ddt):
+            self.bump('cmp:disc_dtype=' + d)
+        for l in set(st['dlay']):
+            self.bump('cmp:disc_layout=' + l)
+        for t in set(st['nst']):
+            self.bump('cmp:n_sim_type=' + t)
+        if pst is not None:
+            self.bump('cmp:priors_container=' + pst)
+        return st
+
+    def gen_compare(self, malformed=False, nonfinite=False, zero=False):
+        r = self.rng
+        nm = r.randint(2, 4) if (nonfinite or zero) else r.randint(1, 4)
         style = r.choice(['ties', 'distinct', 'distinct', 'wide']) if nonfinite else r.choice(['ties', 'ties', 'distinct', 'wide'])
         samples = []
         pool = list(range(0, 60))
@@ -235,6 +483,19 @@ class C17(PropCheck):
             pri = [r.choice([0, 1, 1, 2, 3, 4, 8]) / 8.0 for _ in range(nm)]
             if r.random() < 0.3:
                 pri = pri + [0.5]
+        if zero:
+            # prior weights with an exact zero at a chosen position (every position is visited), the other weights
+            # positive (sometimes further zeros); weights are eighths or plain integers (un-normalised weights)
+            scale = r.choice([8.0, 8.0, 1.0])
+            pri = [r.choice([1, 1, 2, 3, 4, 8]) / scale for _ in range(nm)]
+            z = r.randrange(nm)
+            pri[z] = 0.0
+            for i in range(nm):
+                if i != z and r.random() < 0.12:
+                    pri[i] = 0.0
+            self.bump('cmp:zero_prior_at=' + ('first' if z == 0 else 'last' if z == nm - 1 else 'middle'))
+            self.bump('cmp:zero_priors=%d_of_%d' % (sum(1 for w in pri if w == 0), nm))
+            self.bump('cmp:weights=' + ('integers' if scale == 1.0 else 'eighths'))
         if malformed:
             what = r.choice(['short_priors', 'no_samples'])
             if what == 'short_priors':
@@ -247,56 +508,91 @@ class C17(PropCheck):
         self.bump('cmp:priors=' + ('none' if pri is None else 'given'))
         perm = list(range(len(samples)))
         r.shuffle(perm)
-        return dict(kind='cmp', samples=samples, priors=pri, perm=perm)
+        case = dict(kind='cmp', samples=samples, priors=pri, perm=perm)
+        if zero or r.random() < 0.4:
+            case['cst'] = self._cmp_store(samples, pri)
+        return case
 
     def generate(self):
         na, nc, nma, nmc = (150, 220, 12, 16) if self.tier == 'quick' else (2200, 3000, 120, 160)
         nx, nnf = (60, 90) if self.tier == 'quick' else (800, 1200)
+        nst, nz = (100, 100) if self.tier == 'quick' else (700, 1000)
         for _ in range(na):
             yield self.gen_adjust()
         for _ in range(nx):
             yield self.gen_adjust(cross=True)
+        for _ in range(nst):
+            yield self.gen_adjust_store()
         for _ in range(nma):
             yield self.gen_adjust(malformed=True)
         for _ in range(nc):
             yield self.gen_compare()
         for _ in range(nnf):
             yield self.gen_compare(nonfinite=True)
+        for _ in range(nz):
+            yield self.gen_compare(zero=True)
         for _ in range(nmc):
             yield self.gen_compare(malformed=True)
 
     # ------------------------------------------------------------------------------------------
-    def _run_adjust(self, summ, obs, params, use_names, spec='instance'):
-        """adjust_posterior on a real Sample and a real ElfiModel; returns dict(out, coef, icpt) or dict(error)."""
+    def _run_adjust(self, summ, obs, params, use_names, spec='instance', run=None):
+        """adjust_posterior on a real Sample and a real ElfiModel; returns dict(out, coef, icpt) or dict(error).
+        `run` (default: canonical listing, float64 C-contiguous arrays) = dict(perm, sdt, odt, pdt, slay, play): the
+        order in which the summaries are listed in `summary_names`, the storage dtype of every array of the Sample and
+        of every observed summary, the memory layout of every array of the Sample.  coef is in the run's listing order."""
         import elfi
         from elfi.methods.post_processing import LinearAdjustment, adjust_posterior
         from elfi.methods.results import Sample
-        S = np.array([[dec(x) for x in row] for row in summ], dtype=float)
-        n, k = S.shape
+        n, k, npar = len(summ), len(obs), len(params)
+        if run is None:
+            run = dict(perm=list(range(k)), sdt=['f8'] * k, odt=['f8'] * k, pdt=['f8'] * npar, slay=['c'] * k, play=['c'] * npar)
+        perm = [int(j) for j in run['perm']]
+        assert sorted(perm) == list(range(k)), 'harness: listing is not a permutation'
         snames = ['S%d' % j for j in range(k)]
-        pnames = ['t%d' % q for q in range(len(params))]
+        pnames = ['t%d' % q for q in range(npar)]
+        odt_of = {perm[pos]: run['odt'][pos] for pos in range(k)}
         m = elfi.ElfiModel()
         pr = elfi.Prior('uniform', 0, 1, model=m, name='pr')
         sim = elfi.Simulator(lambda t, batch_size=1, random_state=None: np.zeros((batch_size, k)), pr,
                              observed=np.array([[dec(x) for x in obs]], dtype=float), model=m, name='sim')
         for j in range(k):
-            elfi.Summary((lambda y, j=j: y[:, j]), sim, model=m, name=snames[j])
+            if odt_of[j] == 'f8':
+                elfi.Summary((lambda y, j=j: y[:, j]), sim, model=m, name=snames[j])
+            else:   # a summary function that returns another dtype (a count, a flag, single precision)
+                elfi.Summary((lambda y, j=j, dt=NPDT[odt_of[j]]: y[:, j].astype(dt)), sim, model=m, name=snames[j])
+        for j in range(k):
+            ob = m[snames[j]].observed
+            assert ob.dtype == NPDT[odt_of[j]] and ob.shape == (1,) and float(ob[0]) == dec(obs[j]), \
+                'harness: observed summary %d is %r, wanted %r as %s' % (j, ob, obs[j], odt_of[j])
         outputs = {}
         for q, name in enumerate(pnames):
-            outputs[name] = np.array([dec(x) for x in params[q]], dtype=float)
-        for j, name in enumerate(snames):
-            outputs[name] = S[:, j].copy()
+            outputs[name] = store(params[q], run['pdt'][q], run['play'][q])
+        for pos, j in enumerate(perm):
+            outputs[snames[j]] = store([row[j] for row in summ], run['sdt'][pos], run['slay'][pos])
+        before = {name: (a.dtype.str, a.shape, a.tobytes()) for name, a in outputs.items()}
+        obs_before = {nm: (m[nm].observed.dtype.str, m[nm].observed.tobytes()) for nm in snames}
         sample = Sample(method_name='Rejection', outputs=outputs, parameter_names=pnames)
         adj = LinearAdjustment() if spec == 'instance' else 'linear'
+        d = {}
         try:
-            res = adjust_posterior(sample, m, snames, pnames if use_names else None, adj)
+            res = adjust_posterior(sample, m, [snames[j] for j in perm], pnames if use_names else None, adj)
         except Exception as e:
-            return dict(error='%s: %s' % (type(e).__name__, str(e)[:200]))
-        out = [[float(x) for x in res.outputs[name]] for name in pnames]
-        d = dict(out=out)
+            d['error'] = '%s: %s' % (type(e).__name__, str(e)[:200])
+            res = None
+        # the caller's arrays (the Sample that was passed in, the model's observed data) are not written to
+        changed = [name for name, a in outputs.items() if (a.dtype.str, a.shape, a.tobytes()) != before[name]]
+        changed += [name for name, a in sample.outputs.items() if name in outputs and a is not outputs[name]
+                    and (a.dtype.str, a.shape, a.tobytes()) != before[name]]
+        changed += ['observed ' + nm for nm in snames if (m[nm].observed.dtype.str, m[nm].observed.tobytes()) != obs_before[nm]]
+        if changed:
+            d['mutated'] = sorted(set(changed))
+        if res is None:
+            return d
+        d['out'] = [[float(x) for x in np.asarray(res.outputs[name]).ravel()] for name in pnames]
+        d['out_shape'] = [list(np.shape(res.outputs[name])) for name in pnames]
         if spec == 'instance':
-            d['coef'] = [[float(x) for x in np.atleast_1d(rm.coef_)] for rm in adj.regression_models]
-            d['icpt'] = [float(rm.intercept_) for rm in adj.regression_models]
+            d['coef'] = [[float(x) for x in np.atleast_1d(rm.coef_).ravel()] for rm in adj.regression_models]
+            d['icpt'] = [float(np.asarray(rm.intercept_).ravel()[0]) for rm in adj.regression_models]
         return d
 
     def _oracle(self, summ, obs, params):
@@ -319,21 +615,49 @@ class C17(PropCheck):
             res.append(dict(b=[float(x) for x in b], full=bool(full), nf=int(mask.sum()), mask=mask.tolist()))
         return res
 
-    def _run_compare(self, samples, priors):
+    @staticmethod
+    def _cmp_arrays(samples, st=None):
+        """the discrepancy arrays as they are handed to compare_models"""
+        if st is None:
+            return [np.array([dec(x) for x in d], dtype=float) for d, _ in samples]
+        return [store(d, st['ddt'][i], st['dlay'][i]) for i, (d, _) in enumerate(samples)]
+
+    def _run_compare(self, samples, priors, st=None):
         from elfi.methods.model_selection import compare_models
         from elfi.methods.results import Sample
         objs = []
-        for d, ns in samples:
-            objs.append(Sample(method_name='Rejection', outputs={'t': np.zeros(len(d)), 'd': np.array([dec(x) for x in d], dtype=float)},
+        arrs = self._cmp_arrays(samples, st)
+        before = [(a.dtype.str, a.tobytes()) for a in arrs]
+        for i, (d, ns) in enumerate(samples):
+            if st is not None and st['nst'][i] != 'int':
+                ns = NPDT[st['nst'][i]](ns)
+            objs.append(Sample(method_name='Rejection', outputs={'t': np.zeros(len(d)), 'd': arrs[i]},
                                parameter_names=['t'], discrepancy_name='d', n_sim=ns))
+        pri = None if priors is None else list(priors)
+        if st is not None and priors is not None:
+            kind = st['pst']
+            if kind == 'tuple':
+                pri = tuple(priors)
+            elif kind == 'ilist':
+                pri = [int(w) for w in priors]
+            elif kind in NPDT:
+                pri = np.array(priors, dtype=np.float64).astype(NPDT[kind])
+                pri.setflags(write=False)
+            assert [float(w) for w in pri] == [float(w) for w in priors], 'harness: prior weights not exactly storable'
+        pri_before = None if not isinstance(pri, np.ndarray) else pri.tobytes()
         try:
-            p = compare_models(objs, None if priors is None else list(priors))
+            p = compare_models(objs, pri)
         except Exception as e:
             return dict(p=None, error='%s: %s' % (type(e).__name__, str(e)[:200]))
-        p = [float(x) for x in p]
+        res = {}
+        if [(a.dtype.str, a.tobytes()) for a in arrs] != before or (pri_before is not None and pri.tobytes() != pri_before):
+            res['mutated'] = True
+        p = [float(x) for x in np.asarray(p, dtype=float).ravel()]
         if any(not math.isfinite(x) for x in p):
-            return dict(p=None, nan=True)
-        return dict(p=p)
+            res.update(p=None, nan=True)
+            return res
+        res['p'] = p
+        return res
 
     @staticmethod
     def _py_compare(samples, priors, order):
@@ -369,6 +693,16 @@ class C17(PropCheck):
             d['oracle'] = self._oracle(case['summ'], case['obs'], case['params'])
             # second entry point: string specification
             d2 = self._run_adjust(case['summ'], case['obs'], case['params'], case['use_names'], spec='linear')
+            # the same numeric sample, listed / stored otherwise
+            d['runs'] = []
+            for run in case.get('runs', []):
+                dr = self._run_adjust(case['summ'], case['obs'], case['params'], case['use_names'], run=run)
+                if 'out' in dr and 'out' in d and len(dr['out']) == len(d['out']) and \
+                        all(len(a) == len(b) for a, b in zip(dr['out'], d['out'])):
+                    with np.errstate(all='ignore'):
+                        dr['max_abs_diff_to_reference_run'] = max(
+                            [float(np.max(np.abs(np.array(a) - np.array(b)))) for a, b in zip(dr['out'], d['out']) if len(a)] or [0.0])
+                d['runs'].append(dr)
             d['same_by_string'] = (d2.get('out') == d.get('out')) or (
                 'out' in d and 'out' in d2 and all(np.array_equal(a, b, equal_nan=True) for a, b in zip(d['out'], d2['out'])))
             # affine re-expression of simulated and observed summaries
@@ -388,12 +722,16 @@ class C17(PropCheck):
             return d
         else:
             samples, priors = case['samples'], case['priors']
-            d = self._run_compare(samples, priors)
+            cst = case.get('cst')
+            d = self._run_compare(samples, priors, cst)
             allv = [dec(x) for dd, _ in samples for x in dd]
-            order = [int(j) for j in np.argsort(np.array(allv, dtype=float))] if allv else []
+            # the concatenated array exactly as compare_models builds it (dtype decides numpy's sort kernel and with it
+            # the order of ties; the order that is used is validated inside Coq anyway)
+            conc = np.concatenate(self._cmp_arrays(samples, cst)) if samples else np.array([], dtype=float)
+            order = [int(j) for j in np.argsort(conc)] if allv else []
             cands = [order]
             if allv:
-                st = [int(j) for j in np.argsort(np.array(allv, dtype=float), kind='stable')]
+                st = [int(j) for j in np.argsort(conc, kind='stable')]
                 rv = sorted(range(len(allv)), key=lambda j: (dkey(allv[j]), -j))
                 cands += [st, rv]
             well = len(samples) > 0 and (priors is None or len(priors) >= len(samples))
@@ -409,7 +747,9 @@ class C17(PropCheck):
                 perm = case['perm']
                 ps = [samples[i] for i in perm]
                 pp = None if priors is None else [priors[i] for i in perm] + list(priors[len(samples):])
-                d['perm_p'] = self._run_compare(ps, pp)['p']
+                pst = None if cst is None else dict(ddt=[cst['ddt'][i] for i in perm], dlay=[cst['dlay'][i] for i in perm],
+                                                    nst=[cst['nst'][i] for i in perm], pst=cst['pst'])
+                d['perm_p'] = self._run_compare(ps, pp, pst)['p']
                 s = sorted(dkey(x) for x in allv)
                 nmin = min(len(dd) for dd, _ in samples)
                 d['clean_cut'] = bool(nmin == len(s) or nmin == 0 or s[nmin - 1] < s[nmin])
@@ -431,6 +771,14 @@ class C17(PropCheck):
     def _py_check(self, case, out):
         fails = []
         if case['kind'] == 'adj':
+            for tag, dr in [('reference run', out)] + [('run %d %s' % (t, json.dumps(case['runs'][t], sort_keys=True)), dr)
+                                                       for t, dr in enumerate(out.get('runs', []))]:
+                if dr.get('mutated'):
+                    fails.append(('inputs_unmutated', '%s: adjust_posterior wrote to the arrays it was given: %s' % (tag, dr['mutated'])))
+                for q, shp in enumerate(dr.get('out_shape', [])):
+                    if len(shp) != 1:
+                        fails.append(('adjusted_rows', '%s: adjusted parameter %d has shape %s, a 1-d array of the usable rows expected'
+                                      % (tag, q, shp)))
             if not out.get('same_by_string', True):
                 fails.append(('string_spec', "adjust_posterior(..., 'linear') differs from LinearAdjustment() instance"))
             if 'out' in out:
@@ -457,6 +805,8 @@ class C17(PropCheck):
         else:
             nm = len(case['samples'])
             p = out.get('p')
+            if out.get('mutated'):
+                fails.append(('inputs_unmutated', 'compare_models wrote to the discrepancy / prior arrays it was given'))
             if p is not None and 'perm_p' in out:
                 if len(p) != nm:
                     fails.append(('compare_length', 'compare_models returned %d probabilities for %d models' % (len(p), nm)))
@@ -548,21 +898,24 @@ class C17(PropCheck):
             obs = clist([cfv(x) for x in case['obs']])
             pars = clist([clist([cfv(x) for x in col]) for col in case['params']])
             orc = clist([cql(o['b']) for o in out['oracle']])
-            if 'out' in out:
-                if any(not math.isfinite(x) for l in out['out'] + out['coef'] for x in l) or \
-                        any(not math.isfinite(x) for x in out['icpt']):
-                    # a non-finite adjusted value or coefficient: cannot be a Q; encode as an impossible output
-                    impl = '(Some [])'
-                    coef = clist(['[]' for _ in out['coef']])
-                    icpt = clist(['0' for _ in out['icpt']])
-                else:
-                    impl = '(Some %s)' % clist([cql(l) for l in out['out']])
-                    coef = clist([cql(l) for l in out['coef']])
-                    icpt = cql(out['icpt'])
-            else:
-                impl, coef, icpt = 'None', '[]', '[]'
+
+            def impl_terms(o):
+                if 'out' in o:
+                    if any(not math.isfinite(x) for l in o['out'] + o['coef'] for x in l) or \
+                            any(not math.isfinite(x) for x in o['icpt']):
+                        # a non-finite adjusted value or coefficient: cannot be a Q; encode as an impossible output
+                        return '(Some [])', clist(['[]' for _ in o['coef']]), clist(['0' for _ in o['icpt']])
+                    return '(Some %s)' % clist([cql(l) for l in o['out']]), clist([cql(l) for l in o['coef']]), cql(o['icpt'])
+                return 'None', '[]', '[]'
+            impl, coef, icpt = impl_terms(out)
+            runs = []
+            for run, dr in zip(case.get('runs', []), out.get('runs', [])):
+                ri, rc, r0 = impl_terms(dr)
+                runs.append('{| r_perm := %s; r_sdt := %s; r_odt := %s; r_pdt := %s; r_coef := %s; r_icpt := %s; r_out := %s |}'
+                            % (clist([cnat(j) for j in run['perm']]), clist([COQDT[x] for x in run['sdt']]),
+                               clist([COQDT[x] for x in run['odt']]), clist([COQDT[x] for x in run['pdt']]), rc, r0, ri))
             return ('CAdj {| a_summ := %s; a_obs := %s; a_params := %s; a_oracle := %s; a_impl_coef := %s; '
-                    'a_impl_icpt := %s; a_impl_out := %s |}' % (rows, obs, pars, orc, coef, icpt, impl))
+                    'a_impl_icpt := %s; a_impl_out := %s; a_runs := %s |}' % (rows, obs, pars, orc, coef, icpt, impl, clist(runs)))
         samples = clist(['(%s, %s)' % (cql(d), cq(ns)) for d, ns in surrogate(case['samples'])])
         pri = 'None' if case['priors'] is None else '(Some %s)' % cql(case['priors'])
         order = clist([cnat(j) for j in out['order']])
